@@ -7,6 +7,7 @@ import (
 	"fmt"
 	"math"
 	"os"
+	"strings"
 
 	"github.com/launchdarkly/go-sdk-common/v3/ldattr"
 	"github.com/launchdarkly/go-sdk-common/v3/ldcontext"
@@ -365,6 +366,157 @@ func bucketOf(sec bool, ctx ldcontext.Context, isExp bool, seed *int, ck, key st
 	return float64(v)
 }
 
+// manyKindsCase: a multi-kind context with many kinds (more than any fixed-size per-evaluation table
+// would hold), an unbounded segment or two for each kind, and a flag that walks through all of them.
+func (g *gen) manyKindsCase(id string) *EvalCase {
+	r := g.r
+	c := &EvalCase{ID: id, Kind: "eval", Opts: WOpts{Log: r.chance(2, 3), Rec: true}}
+	all := []string{"user", "org", "device", "team", "tenant", "app", "region", "cluster", "shard"}
+	for i := range all {
+		j := i + r.intn(len(all)-i)
+		all[i], all[j] = all[j], all[i]
+	}
+	kinds := all[:4+r.intn(5)]
+	ctx := WCtx{T: "multi"}
+	for _, k := range kinds {
+		sc := g.sctx(k)
+		sc.Sec, sc.Legacy = nil, false
+		sc.Key = "key-" + k
+		if r.chance(1, 6) {
+			sc.Key = "shared-key"
+		}
+		ctx.Cs = append(ctx.Cs, sc)
+	}
+	c.Ctx = ctx
+	c.Store.Flags, c.Store.Segments = []WFlag{}, []WSegment{}
+	f := simpleFlag("flag", true, 0, 3)
+	f.Form = pick(r, []string{"pre", "plain", "json"})
+	order := append([]string{}, kinds...)
+	if r.chance(1, 2) { // revisit the kinds a second time, in another order
+		for i := len(kinds) - 1; i >= 0; i-- {
+			order = append(order, kinds[i])
+		}
+	}
+	for i, k := range order {
+		s := simpleSegment(fmt.Sprintf("seg-%s-%d", k, i))
+		s.Unb, s.UnbK = true, k
+		if k == "user" && r.chance(1, 2) {
+			s.UnbK = ""
+		}
+		if !r.chance(1, 10) {
+			s.Gen = ip(1 + r.intn(3))
+		}
+		s.Form = pick(r, []string{"pre", "plain", "json"})
+		c.Store.Segments = append(c.Store.Segments, s)
+		cl := WClause{Attr: mkRef("", ""), Op: "segmentMatch", Vals: []JV{jStr(s.Key)}}
+		if r.chance(1, 3) && len(f.Rules) > 0 {
+			// several clauses in one rule (all must match: a non-match ends the rule early)
+			f.Rules[len(f.Rules)-1].Clauses = append(f.Rules[len(f.Rules)-1].Clauses, cl)
+		} else {
+			f.Rules = append(f.Rules, WFlagRule{ID: fmt.Sprintf("r%d", i), Clauses: []WClause{cl},
+				VR: WVR{V: ip(1), RO: WRollout{Vars: []WWV{}, By: mkRef("", "")}}})
+		}
+	}
+	c.Flag = f
+	g.ctxKeys = ctxKeysOf(&c.Ctx)
+	c.BS = g.bigSegProvider(&c.Ctx, c.Store.Segments)
+	if c.BS != nil && r.chance(2, 3) {
+		// mostly "not a member", so that the evaluation keeps walking
+		for i := range c.BS.Table {
+			for j := range c.BS.Table[i].A.M {
+				c.BS.Table[i].A.M[j].In = false
+			}
+		}
+		for j := range c.BS.Dflt.M {
+			c.BS.Dflt.M[j].In = false
+		}
+	}
+	c.Tags = []string{"manykinds"}
+	return c
+}
+
+// nearThreshold searches candidate context keys for one whose bucket, in units of 1/100000, is as
+// close as possible to an integer: the inputs on which the exact shape of the single-precision
+// threshold arithmetic (divide the weight, or multiply the bucket; accumulate in float32 or in int)
+// decides the outcome. bucketFn is the real bucket computation, used only to *place* the case.
+func nearThreshold(r *rng, tries int, bucketFn func(key string) float64) (string, float64) {
+	bestKey, bestB, bestD := "", 0.0, 2.0
+	for i := 0; i < tries; i++ {
+		key := fmt.Sprintf("user-%d", r.intn(1<<30))
+		b := bucketFn(key)
+		x := b * 100000
+		d := math.Abs(x - math.Round(x))
+		if b > 0 && d < bestD {
+			bestKey, bestB, bestD = key, b, d
+		}
+	}
+	return bestKey, bestB
+}
+
+// segSplitCase: a segment rule whose weight sits next to the context's bucket for that segment
+// (same idea as bucketSplitCase, for the `bucket < weight/100000` test of segment rules), reached
+// through a segmentMatch clause of the evaluated flag.
+func (g *gen) segSplitCase(id string) *EvalCase {
+	r := g.r
+	c := &EvalCase{ID: id, Kind: "eval", Opts: WOpts{Log: true, Rec: true, Sec: r.chance(1, 4)}}
+	c.Store.Flags = []WFlag{}
+	seg := simpleSegment(pick(r, []string{"seg", "s0", "beta-testers", "сегмент-" + fmt.Sprint(r.intn(50))}))
+	seg.Salt = pick(r, []string{"salty", "salt", "", "s2", strings.Repeat("S", 120)})
+	seg.Form = pick(r, []string{"pre", "plain", "json"})
+	rule := WSegRule{ID: "r0", Clauses: []WClause{}, By: mkRef("", ""), RCK: pick(r, []string{"", "", "user", "org"})}
+	kind := "user"
+	if rule.RCK == "org" {
+		kind = "org"
+	}
+	sc := g.sctx(kind)
+	sc.Sec, sc.Legacy = nil, false
+	if r.chance(1, 5) {
+		sc.Sec = sp("sec")
+		sc.Kind = "user"
+		if rule.RCK == "org" {
+			rule.RCK = ""
+		}
+	}
+	bucketFn := func(key string) float64 {
+		sc.Key = key
+		ctx := WCtx{T: "single", C: &sc}
+		return bucketOf(c.Opts.Sec, ctx.build(), false, nil, rule.RCK, seg.Key, rule.By.build(), seg.Salt)
+	}
+	tries := 1
+	if r.chance(3, 4) {
+		tries = 150
+	}
+	key, b := nearThreshold(r, tries, bucketFn)
+	sc.Key = key
+	w := int(math.Round(b*100000)) + pick(r, []int{0, 0, 0, 0, 1, -1, 2})
+	if r.chance(1, 12) {
+		w = pick(r, []int{0, -1, 100000, 100001, -100000})
+	}
+	rule.Weight = &w
+	if r.chance(1, 3) {
+		rule.Clauses = []WClause{{Attr: mkRef("lit", "key"), Op: "in", Vals: []JV{jStr(key)}}}
+	}
+	seg.Rules = []WSegRule{rule}
+	if r.chance(1, 4) {
+		// a second weighted rule behind the first one
+		w2 := w + pick(r, []int{1, -1, 50000})
+		seg.Rules = append(seg.Rules, WSegRule{ID: "r1", Clauses: []WClause{}, By: mkRef("", ""), RCK: rule.RCK, Weight: &w2})
+	}
+	c.Store.Segments = []WSegment{seg}
+	f := simpleFlag("flag", true, 0, 3)
+	f.Form = pick(r, []string{"pre", "plain", "json"})
+	f.Rules = []WFlagRule{{ID: "in-segment", Clauses: []WClause{{Attr: mkRef("", ""), Op: "segmentMatch", Vals: []JV{jStr(seg.Key)}, Neg: r.chance(1, 6)}},
+		VR: WVR{V: ip(1), RO: WRollout{Vars: []WWV{}, By: mkRef("", "")}}}}
+	c.Flag = f
+	c.Ctx = WCtx{T: "single", C: &sc}
+	if r.chance(1, 5) {
+		other := g.sctx("device")
+		c.Ctx = WCtx{T: "multi", Cs: []WSCtx{sc, other}}
+	}
+	c.Tags = []string{"segsplit"}
+	return c
+}
+
 // bucketSplitCase: a rollout whose cumulative thresholds sit next to the context's bucket.
 func (g *gen) bucketSplitCase(id string) *EvalCase {
 	r := g.r
@@ -391,6 +543,16 @@ func (g *gen) bucketSplitCase(id string) *EvalCase {
 			ro.By = mkRef("lit", name)
 		} else {
 			ro.By = mkRef("ref", pick(r, []string{name, "/" + name, "/obj/" + name}))
+		}
+	}
+	if c.Ctx.T == "single" && c.Ctx.C.Sec == nil && !c.Ctx.C.Legacy && r.chance(1, 3) {
+		// pick a key whose bucket lies as close as possible to a multiple of 1/100000
+		key, _ := nearThreshold(r, 100, func(key string) float64 {
+			c.Ctx.C.Key = key
+			return bucketOf(c.Opts.Sec, c.Ctx.build(), ro.Kind == "experiment", ro.Seed, ro.CK, f.Key, ro.By.build(), f.Salt)
+		})
+		if key != "" {
+			c.Ctx.C.Key = key
 		}
 	}
 	b := bucketOf(c.Opts.Sec, c.Ctx.build(), ro.Kind == "experiment", ro.Seed, ro.CK, f.Key, ro.By.build(), f.Salt)
@@ -596,6 +758,12 @@ func genStream0(name string, r *rng, id string) *EvalCase {
 	case "bucketdense":
 		g.p = profiles["rollouts"]
 		return g.bucketDenseCase(id)
+	case "segsplit":
+		g.p = profiles["segments"]
+		return g.segSplitCase(id)
+	case "manykinds":
+		g.p = profiles["bigseg"]
+		return g.manyKindsCase(id)
 	case "dateops":
 		g.p = profiles["wellformed"]
 		g.forceOps = []string{"before", "after"}
